@@ -7,6 +7,8 @@ struct SynthInfo {
 	int scalars = 0;
 	std::vector<const void*> readRefs, readStrs; // NiRef / NiStringRef objects that were read (addresses inside the block)
 	uint32_t blockId = 0;
+	uint64_t tape = 0;             // hash of the sequence of (field kind, size, is-reference, is-string) the reader asked for
+	std::vector<int> scalarKinds;  // FieldKind (or -1 untyped, -2 reference, -3 string) of every scalar transfer, by ordinal
 };
 std::vector<std::string> allBlockTypes();
 const std::vector<std::pair<std::string, nifly::NiVersion>>& synthVersions();
@@ -14,6 +16,10 @@ nifly::NiVersion synthVersion(const std::string& name);
 // Creates a model [root, node, node, <synthesised block of `type`>] in the given version. mode 0: optional sections off,
 // 1: on with counts 2, 2: seeded mixture. boostAt >= 0 re-generates that scalar field with a large value.
 // Returns false when the generator ran out of budget (a count blew up) - such instances are discarded.
+// boostVal >= 0: the value that field gets instead (value sweep: which small values steer the layout of the block).
 bool synthFile(nifly::NifFile& nif, const std::string& type, const std::string& ver, int mode, uint64_t seed, int boostAt = -1,
-			   SynthInfo* info = nullptr);
+			   SynthInfo* info = nullptr, long long boostVal = -1);
+// the same with a list of (scalar ordinal, value) overrides (value -1 = 0xFFFFFFFF: "no string" / "no block")
+bool synthFileOv(nifly::NifFile& nif, const std::string& type, const std::string& ver, int mode, uint64_t seed,
+				 const std::vector<std::pair<int, long long>>& overrides, SynthInfo* info = nullptr);
 }
